@@ -43,7 +43,7 @@ CHECKS = {
  "C12": dict(
    level="exploration",
    technique="property-based metamorphic testing (proptest permutations and generated definition databases) comparing exact registry dumps",
-   text="The bundled definition list (thorough: also with the currency overlay) is loaded under reversal, rotations, strides, file splits and seeded uniform shuffles, and generated databases (acyclic graphs of up to 60 units with forward, prefixed and plural references, prefixes, quantities, substances, docs, categories; values known to the generator) under 4 permutations each: the canonical exact dump and the set of reported problems must equal those of the original order, and generated databases must load to the generator's independently computed values.",
+   text="The bundled definition list (thorough: also with the currency overlay) is loaded under reversal, rotations, strides, file splits and seeded uniform shuffles, and generated databases (acyclic graphs of up to 60 units with forward, prefixed and plural references, prefixes, quantities, substances, docs, categories; values known to the generator) under 4 permutations each: the canonical exact dump and the set of reported problems must equal those of the original order, and generated databases must load to the generator's independently computed values. Phase cli-split: generated user units (referring to bundled units, to each other, and to bundled substances by name, symbol or grammar-generated chemical formula) split over the real CLI's two user files in a generated order must answer as they do from one file, and must not change what bundled names mean.",
    note="Entries sharing (namespace, name) are reduced to the shipped-order winner first (the statement's premise).",
    design="§4 C12"),
  "C13": dict(
@@ -73,7 +73,7 @@ CHECKS = {
  "C17": dict(
    level="exploration",
    technique="exhaustive enumeration of every quantity and occurring dimensionality in several spellings plus proptest-generated exponent vectors, with a set-equality oracle over a registry filter",
-   text="Every named quantity and every dimensionality among stored units (as quantity name, as up to three units, as base-unit product) plus random exponent vectors: `units for` must list exactly the registry's non-alias units of that dimensionality (plus the base unit's long name for a first power), once each, under their own category; every `factorize` entry must multiply out to the dimensionality with no duplicates; all spellings must give identical lists.",
+   text="Every named quantity and every dimensionality among stored units (as quantity name, as up to three units, as base-unit product, and as that product beside a foreign base unit to the power zero or times and divided by one) plus random exponent vectors: `units for` must list exactly the registry's non-alias units of that dimensionality (plus the base unit's long name for a first power), once each, under their own category; every `factorize` entry must multiply out to the dimensionality with no duplicates; all spellings must give identical lists.",
    note="factorize only for complexity score <= 10 (costlier searches, up to the refusal of hopeless ones, are run by C04). Category display names and alias status are read from the definitions file, not from the registry.",
    design="§4 C17"),
  "C18": dict(
